@@ -3,6 +3,7 @@ package props
 import (
 	"net/netip"
 	"reflect"
+	"sort"
 	"strings"
 	"testing"
 
@@ -243,10 +244,21 @@ var c10RCodes = []string{"NOERROR", "noerror", "NXDOMAIN", "SERVFAIL", "REFUSED"
 var c10Types = []string{"A", "AAAA", "CNAME", "MX", "PTR", "TXT", "HTTPS", "SVCB", "SRV", "NS", "SOA", "a", "aaaa", "NONE", "RESERVED", "ANY", "", "TYPE65", "X", "mx", "srv", "https", "Ptr", "OPT", "CAA", "none"}
 var c10Vals = []string{"", "1.2.3.4", "::1", "::ffff:1.2.3.4", "[::1]", "1.2.3", "256.1.1.1", "host.example", "host.example.", "host.example..", "h..example.", ".", "..", "-a.b", "a_b.c",
 	"10 mail.x", "10  mail.x", "65536 mail.x", "65535 mail.x", "-1 mail.x", "10 .", "10", "0 m.x", "1e20 m.x", "1 2 3 t.x", "1 2 3 .", "1 2 65536 t.x", "65535 65535 65535 t.x",
-	"1 2 3", "1 2 3 t.x extra", "1 .", "1 . alpn=h3", "1 . alpn", "1 . a=b=c", "1 t.x ipv4hint=1.2.3.4 port=8443", "99999 .", "hello world", "a;b",
+	"1 2 3", "1 2 3 t.x extra", "1 .", "1 . alpn=h3", "1 . alpn", "1 . a=b=c", "1 t.x ipv4hint=1.2.3.4 port=8443", "99999 .", "1 . dohpath=", "1 . dohpath=/dns-query{?dns}", "1 t.x alpn=", "1 . =x", "1 . dohpath=x",
+	"v=spf1 -all", "0 issue letsencrypt.org", "hello world", "a;b",
 	strings.Repeat("a", 64), strings.Repeat("a", 63), strings.Repeat("t", 255), strings.Repeat("t", 256), strings.Repeat("long text ", 60), "xn--e1afmkfd.xn--p1ai", "0.0.0.0", "::", "1.2.3.4.", " 1.2.3.4", "fe80::1%eth0", "a..b", "a.b..", "1", "00 m.x", "+1 m.x"}
 var c10Shorts = []string{"NOERROR", "NXDOMAIN", "SERVFAIL", "REFUSED", "FORMERR", "A", "ABC", "abc", "Abc", "1.2.3.4", "::", "1.2.3.4.5", "example.org", "example.org.",
 	"EXAMPLE", "exa mple", "a;b", ";", ";;", ";;;", "NOERROR;A", "NOERROR;;", "", "::ffff:1.2.3.4", "[::1]", "fe80::1%eth0", "a-.b", "-", "1", "dead.beef", "1.2.3.256", "::g"}
+
+// every record type name known to the DNS library, in both letter cases
+var c10AllTypes = func() []string {
+	var out []string
+	for name := range dns.StringToType {
+		out = append(out, name, strings.ToLower(name))
+	}
+	sort.Strings(out)
+	return out
+}()
 
 func genC10(t *rapid.T) c10Case {
 	switch rapid.IntRange(0, 9).Draw(t, "form") {
@@ -282,7 +294,11 @@ func genC10(t *rapid.T) c10Case {
 		v := rapid.StringMatching(`[ -#%-+\--~]{0,24}`).Draw(t, "free") // printable ASCII without comma and dollar
 		return c10Case{Value: pick(t, "rc", c10RCodes) + ";" + pick(t, "ty", c10Types) + ";" + v}
 	}
-	return c10Case{Value: pick(t, "rcode", c10RCodes) + ";" + pick(t, "type", c10Types) + ";" + pick(t, "val", c10Vals)}
+	ty := pick(t, "type", c10Types)
+	if chance(t, "any-type", 3) {
+		ty = pick(t, "type-any", c10AllTypes)
+	}
+	return c10Case{Value: pick(t, "rcode", c10RCodes) + ";" + ty + ";" + pick(t, "val", c10Vals)}
 }
 
 func init() { register("C10", checkC10) }
